@@ -748,10 +748,10 @@ impl Expression {
                 match ps.peek::<0>() {
                     Some(d) if ('0'..='7').contains(&d) => {
                         // parse as OCT
-                        let mut num = 0i64;
+                        let mut num = Pow2RadixAcc::new(3);
                         loop {
                             let d = ps.next().unwrap() as i64 - '0' as i64;
-                            num = num * 8 + d;
+                            num.push(d);
                             let Some(peek) = ps.peek::<0>() else { break };
                             if !is_ident_char(peek) {
                                 break;
@@ -763,15 +763,12 @@ impl Expression {
                                 return None;
                             }
                         }
-                        return Some(Box::new(Expression::LitInt {
-                            value: num,
-                            location: pos..ps.position(),
-                        }));
+                        return Some(Box::new(num.finish(pos..ps.position())));
                     }
                     Some('x') => {
                         // parse as HEX
                         ps.next(); // 'x'
-                        let mut num = 0i64;
+                        let mut num = Pow2RadixAcc::new(4);
                         let peek = ps.peek::<0>()?;
                         if !('0'..='9').contains(&peek)
                             && !('a'..='f').contains(&peek)
@@ -803,7 +800,7 @@ impl Expression {
                                 'f' | 'F' => 15,
                                 _ => unreachable!(),
                             };
-                            num = num * 16 + d;
+                            num.push(d);
                             let Some(peek) = ps.peek::<0>() else { break };
                             if !is_ident_char(peek) {
                                 break;
@@ -818,10 +815,7 @@ impl Expression {
                                 return None;
                             }
                         }
-                        return Some(Box::new(Expression::LitInt {
-                            value: num,
-                            location: pos..ps.position(),
-                        }));
+                        return Some(Box::new(num.finish(pos..ps.position())));
                     }
                     Some('e') | Some('.') | Some('8') | Some('9') => {
                         // do nothing
@@ -842,7 +836,8 @@ impl Expression {
             }
 
             // parse as normal DEC
-            let mut int = Some(0);
+            let mut int = Some(0i64);
+            let mut int_overflow = false;
             loop {
                 let next = ps.next().unwrap();
                 if next == 'e' {
@@ -876,7 +871,10 @@ impl Expression {
                     // '0'..='9'
                     if let Some(x) = int.as_mut() {
                         let d = next as i64 - '0' as i64;
-                        *x = *x * 10 + d;
+                        match x.checked_mul(10).and_then(|x| x.checked_add(d)) {
+                            Some(v) => *x = v,
+                            None => int_overflow = true, // too large for `i64`: treat as float
+                        }
                     }
                 }
                 let Some(peek) = ps.peek::<0>() else { break };
@@ -892,7 +890,7 @@ impl Expression {
                     return None;
                 }
             }
-            let num = match int {
+            let num = match int.filter(|_| !int_overflow) {
                 None => {
                     let Ok(num) = ps.code_slice(start_index..ps.cur_index()).parse::<f64>() else {
                         ps.add_warning_at_current_position(
@@ -1051,6 +1049,65 @@ impl Expression {
             question_location,
             colon_location,
         }))
+    }
+}
+
+/// Accumulator for integer literals in a power-of-two radix (`0x...`, `0...`).
+///
+/// The value is kept exactly while it fits in an `i64`.
+/// Beyond that, the leading 64 significant bits and a sticky bit are kept,
+/// which is enough to round to the nearest `f64` (the value JavaScript assigns).
+struct Pow2RadixAcc {
+    bits_per_digit: u32,
+    int: Option<i64>,
+    mantissa: u64,
+    dropped_bits: u32,
+    sticky: bool,
+}
+
+impl Pow2RadixAcc {
+    fn new(bits_per_digit: u32) -> Self {
+        Self {
+            bits_per_digit,
+            int: Some(0),
+            mantissa: 0,
+            dropped_bits: 0,
+            sticky: false,
+        }
+    }
+
+    fn push(&mut self, d: i64) {
+        self.int = self
+            .int
+            .and_then(|x| x.checked_mul(1 << self.bits_per_digit))
+            .and_then(|x| x.checked_add(d));
+        for i in (0..self.bits_per_digit).rev() {
+            let bit = (d >> i) & 1 == 1;
+            if self.mantissa >> 63 == 1 {
+                self.dropped_bits = self.dropped_bits.saturating_add(1);
+                self.sticky = self.sticky || bit;
+            } else {
+                self.mantissa = (self.mantissa << 1) | (bit as u64);
+            }
+        }
+    }
+
+    fn finish(self, location: Range<Position>) -> Expression {
+        match self.int {
+            Some(value) => Expression::LitInt { value, location },
+            None => {
+                let m = if self.sticky {
+                    self.mantissa | 1
+                } else {
+                    self.mantissa
+                };
+                let exp = self.dropped_bits.min(i32::MAX as u32) as i32;
+                Expression::LitFloat {
+                    value: (m as f64) * 2f64.powi(exp),
+                    location,
+                }
+            }
+        }
     }
 }
 
